@@ -230,31 +230,27 @@ def check(repo, res, tier):
         isinstance(t, ast.Attribute) and t.attr == 'delay_flag' for t in n.targets)
         and isinstance(n.value, ast.Constant) and n.value.value is True]
     plogic = Logic(ProvCanon(repo))
-    coupled = None
-    for n in flag_sets:
-        ok_here = True
-        seen = False
-        for p in dpaths:
-            for i, e in enumerate(p.events):
-                if e.node is n:
-                    seen = True
-                    must = {(l.atom, l.pol) for l in path_must(plogic, p, i)}
-                    if LENGTHENED not in must:
-                        ok_here = False
-        if seen and ok_here:
-            coupled = n
-    if coupled is not None:
-        res.ok('C15.Y5', d, coupled, 'delay_flag = True under duration < _calc_task_delay()')
-    else:
-        res.bad('C15.Y5', d, d.node, 'no delay_flag = True under duration < total',
-                'do_work no longer flags a task whose actual duration exceeds its nominal duration')
-    # every path on which the lengthened branch is taken sets the flag
+    # every path on which the delay model lengthened the task (duration < total) raises the flag
+    n_len = 0
+    badp = None
+    ids = {id(n) for n in flag_sets}
     for p in dpaths:
+        if p.exit == 'raise':
+            continue
         must = {(l.atom, l.pol) for l in path_must(plogic, p)}
         if LENGTHENED in must:
-            if coupled is not None and not any(e.node is coupled for e in p.events):
-                res.bad('C15.Y5', d, d.node, 'lengthened path without flag',
-                        'a path with duration < total does not set delay_flag', path=p.describe())
+            n_len += 1
+            if not any(id(e.node) in ids for e in p.events):
+                badp = p
+    if n_len and badp is None:
+        res.ok('C15.Y5', d, flag_sets[0] if flag_sets else d.node, 'delay_flag = True on every path with duration < _calc_task_delay()',
+               '%d paths' % n_len)
+    elif not n_len:
+        res.bad('C15.Y5', d, d.node, 'no delay_flag = True under duration < total',
+                'do_work no longer flags a task whose actual duration exceeds its nominal duration')
+    else:
+        res.bad('C15.Y5', d, d.node, 'lengthened path without flag',
+                'a path with duration < total does not set delay_flag', path=badp.describe())
     u = repo.func('Scheduler._update_current_plan')
     upaths = cached_paths(u)
     res.analysed(u, len(upaths))
